@@ -4,6 +4,7 @@ A failing obligation means the code moved away from the model (Model.lean names 
 -/
 import GoZero.Extracted.C17
 import GoZero.C17.Model
+import GoZero.C17.Buf
 namespace GoZero.C17.Tie
 open GoZero.C17
 open GoZero.Extracted.C17
@@ -737,5 +738,80 @@ theorem tie_cLoadConfigJson : cLoadConfigJson =
 
 theorem tie_cLoadConfigYaml : cLoadConfigYaml =
     ["return LoadFromYamlBytes(content, v)", "call LoadFromYamlBytes(content, v)"] := by rfl
+
+/-! ### round 5: where the bytes of a conversion live; the typed data flow of the delegating entry points -/
+
+/-- `encodeToJSON` renders into `var buf bytes.Buffer`, a LOCAL of the call, with no defer: the returned bytes belong to
+the caller (`encodeSite = .freshLocal`, theorems `conversion_results_stable`, `load_reads_own_document`).  A buffer taken
+from package-level state (a pool: seeded C17-8) gives `some .pooled`, anything else `none`. -/
+theorem tie_encodeBufSite : siteOfFlow encodeBufFlow = some encodeSite := by decide
+
+/-- the record itself (the returned expression and the declaration it comes from). -/
+theorem tie_encodeBufFlow : encodeBufFlow =
+    [("return", "buf.Bytes()"), ("root", "buf"), ("root-scope", "local"), ("decl", "var"), ("type", "bytes.Buffer"),
+     ("defers", "0")] := by decide
+
+/-- `YamlToJson` / `TomlToJson` return what `encodeToJSON` returned (no copy in between, nothing kept). -/
+theorem tie_fwdEncoding :
+    fcallsOf fwdEYamlToJson = [⟨"yaml.Unmarshal", [.param 0, .other]⟩, ⟨"toStringKeyMap", [.other]⟩, ⟨"encodeToJSON", [.result 1]⟩] ∧
+    fcallsOf fwdETomlToJson = [⟨"toml.NewDecoder(bytes.NewReader(data)).Decode", [.other]⟩, ⟨"encodeToJSON", [.other]⟩] := by
+  decide
+
+/-- the data flow of the four delegating mapping entry points IS the flow the theorems
+`mapping_entry_points_all_option_lists` / `fwd_*_sem` speak about: content through the front end, the target as it is,
+the options SPREAD (`opts...`). -/
+theorem tie_fwdYamlBytes : fcallsOf Extracted.C17.fwdYamlBytes = GoZero.C17.fwdYamlBytes := by decide
+theorem tie_fwdTomlBytes : fcallsOf Extracted.C17.fwdTomlBytes = GoZero.C17.fwdTomlBytes := by decide
+theorem tie_fwdYamlReader : fcallsOf Extracted.C17.fwdYamlReader = GoZero.C17.fwdYamlReader := by decide
+theorem tie_fwdTomlReader : fcallsOf Extracted.C17.fwdTomlReader = GoZero.C17.fwdTomlReader := by decide
+theorem tie_fwdConfYaml : fcallsOf Extracted.C17.fwdConfYaml = GoZero.C17.fwdConfYaml := by decide
+theorem tie_fwdConfToml : fcallsOf Extracted.C17.fwdConfToml = GoZero.C17.fwdConfToml := by decide
+
+/-- SEMANTIC form, for ALL arguments and ALL callee behaviours: what `UnmarshalYamlBytes(content, v, opts...)` computes
+from the EXTRACTED flow is `UnmarshalJsonBytes(YamlToJson(content), v, opts...)`; likewise the other five. -/
+theorem tie_fwdMapping_sem {α : Type} (sem : String → List α → α) (content v dflt : α) (opts : List α) :
+    runFwd sem [content, v] opts dflt (fcallsOf Extracted.C17.fwdYamlBytes)
+      = sem "UnmarshalJsonBytes" ([sem "encoding.YamlToJson" [content], v] ++ opts) ∧
+    runFwd sem [content, v] opts dflt (fcallsOf Extracted.C17.fwdTomlBytes)
+      = sem "UnmarshalJsonBytes" ([sem "encoding.TomlToJson" [content], v] ++ opts) ∧
+    runFwd sem [content, v] opts dflt (fcallsOf Extracted.C17.fwdYamlReader)
+      = sem "UnmarshalYamlBytes" ([sem "io.ReadAll" [content], v] ++ opts) ∧
+    runFwd sem [content, v] opts dflt (fcallsOf Extracted.C17.fwdTomlReader)
+      = sem "UnmarshalTomlBytes" ([sem "io.ReadAll" [content], v] ++ opts) ∧
+    runFwd sem [content, v] opts dflt (fcallsOf Extracted.C17.fwdJsonBytes)
+      = sem "unmarshalJsonBytes" [content, v, sem "getJsonUnmarshaler" opts] ∧
+    runFwd sem [content, v] opts dflt (fcallsOf Extracted.C17.fwdJsonReader)
+      = sem "unmarshalJsonReader" [content, v, sem "getJsonUnmarshaler" opts] := by
+  refine ⟨?_, ?_, ?_, ?_, ?_, ?_⟩ <;>
+    simp [runFwd, runFwdAux, evalArgs, fcallsOf, fargOf, Extracted.C17.fwdYamlBytes, Extracted.C17.fwdTomlBytes,
+      Extracted.C17.fwdYamlReader, Extracted.C17.fwdTomlReader, Extracted.C17.fwdJsonBytes, Extracted.C17.fwdJsonReader]
+
+/-- conf: the converting loaders, the deprecated wrappers, `LoadConfig` / `MustLoad` (path, target and `opts...` go to
+`Load` unchanged). -/
+theorem tie_fwdConf_sem {α : Type} (sem : String → List α → α) (a v dflt : α) (opts : List α) :
+    runFwd sem [a, v] opts dflt (fcallsOf Extracted.C17.fwdConfYaml) = sem "LoadFromJsonBytes" [sem "encoding.YamlToJson" [a], v] ∧
+    runFwd sem [a, v] opts dflt (fcallsOf Extracted.C17.fwdConfToml) = sem "LoadFromJsonBytes" [sem "encoding.TomlToJson" [a], v] ∧
+    runFwd sem [a, v] opts dflt (fcallsOf Extracted.C17.fwdConfLoadConfig) = sem "Load" ([a, v] ++ opts) ∧
+    runFwd sem [a, v] opts dflt (fcallsOf Extracted.C17.fwdConfLoadConfigJson) = sem "LoadFromJsonBytes" [a, v] ∧
+    runFwd sem [a, v] opts dflt (fcallsOf Extracted.C17.fwdConfLoadConfigYaml) = sem "LoadFromYamlBytes" [a, v] := by
+  refine ⟨?_, ?_, ?_, ?_, ?_⟩ <;>
+    simp [runFwd, runFwdAux, evalArgs, fcallsOf, fargOf, Extracted.C17.fwdConfYaml, Extracted.C17.fwdConfToml,
+      Extracted.C17.fwdConfLoadConfig, Extracted.C17.fwdConfLoadConfigJson, Extracted.C17.fwdConfLoadConfigYaml]
+
+/-- `MustLoad` calls `Load(path, v, opts...)` first (then only the fatal log on an error). -/
+theorem tie_fwdMustLoad : (fcallsOf fwdConfMustLoad).head? = some ⟨"Load", [.param 0, .param 1, .spread 2]⟩ := by decide
+
+/-- `getJsonUnmarshaler` hands the caller's whole option list to `NewUnmarshaler`; the jsonx entry points hand their
+decoder to `unmarshalUseNumber` together with the caller's target. -/
+theorem tie_fwdJsonInternals :
+    fcallsOf fwdGetJsonUnmarshaler = [⟨"NewUnmarshaler", [.other, .spread 0]⟩] ∧
+    fcallsOf fwdJsonMap = [⟨"getJsonUnmarshaler(opts...).Unmarshal", [.param 0, .param 1]⟩] ∧
+    fcallsOf fwdUnmJsonBytes = [⟨"jsonx.Unmarshal", [.param 0, .other]⟩, ⟨"unmarshaler.Unmarshal", [.other, .param 1]⟩] ∧
+    fcallsOf fwdUnmJsonReader = [⟨"jsonx.UnmarshalFromReader", [.param 0, .other]⟩, ⟨"unmarshaler.Unmarshal", [.other, .param 1]⟩] ∧
+    fcallsOf fwdXUseNumber = [⟨"decoder.UseNumber", []⟩, ⟨"decoder.Decode", [.param 1]⟩] ∧
+    (fcallsOf fwdXUnmarshal).take 3 = [⟨"bytes.NewReader", [.param 0]⟩, ⟨"json.NewDecoder", [.result 0]⟩, ⟨"unmarshalUseNumber", [.result 1, .param 1]⟩] ∧
+    (fcallsOf fwdXUnmarshalFromString).take 3 = [⟨"strings.NewReader", [.param 0]⟩, ⟨"json.NewDecoder", [.result 0]⟩, ⟨"unmarshalUseNumber", [.result 1, .param 1]⟩] ∧
+    (fcallsOf fwdXUnmarshalFromReader).take 3 = [⟨"io.TeeReader", [.param 0, .other]⟩, ⟨"json.NewDecoder", [.result 0]⟩, ⟨"unmarshalUseNumber", [.result 1, .param 1]⟩] := by
+  decide
 
 end GoZero.C17.Tie
